@@ -381,6 +381,7 @@ def main(argv=None):
         verif_seed = 1
     jobs = args.jobs or int(os.environ.get('VERIF_JOBS', '0')) or \
         min(16, os.cpu_count() or 1)
+    os.environ['PBV_TIER'] = tier
     timeout = args.timeout or (900 if tier == 'quick' else 4 * 3600)
 
     t0 = time.time()
